@@ -764,7 +764,8 @@ def nnf_implies(spec, guard):
 
 
 def nnf_of_src(src, rename=None):
-    return nnf(ast.parse(src, mode="eval").body, False, rename)
+    from .norm import parse as _p
+    return nnf(_p(src), False, rename)
 
 
 def raw_reaching_def_stmt(name, stmt):
@@ -834,4 +835,136 @@ def forwarding_gaps(caller_fn, callee_name, names):
             elif n not in pos and ("self." + n) not in pos:
                 missing.append(n)
         out.append((c, missing, wrong))
+    return out
+
+
+# ----------------------------------------------------------------------------
+# Path-condition summaries (refactoring-robust views of branch structure)
+# ----------------------------------------------------------------------------
+
+def path_condition(stmt, fn, inline=True):
+    """NNF terms that hold when ``stmt`` executes: tests of enclosing if/elif branches (with polarity) and the
+    negated tests of earlier sibling `if`s whose body always leaves the block (early return / raise / continue)."""
+    terms = []
+
+    def T(test, at):
+        e = inline_temporaries(test, at, fn) if inline else test
+        return e
+
+    for t, pol in guards_of(stmt):
+        owner = enclosing_stmt(t)
+        terms.append(nnf(T(t, owner if owner is not None else stmt), not pol))
+    for g in exit_guards_before(stmt):
+        terms.append(nnf(T(g.test, g), True))
+    return terms
+
+
+def conj(terms):
+    flat = set()
+    for t in terms:
+        if t[0] == "and":
+            flat |= set(t[1])
+        else:
+            flat.add(t)
+    if not flat:
+        return ("and", frozenset())
+    if len(flat) == 1:
+        return next(iter(flat))
+    return ("and", frozenset(flat))
+
+
+def find_raising_guard(fn, spec, rename=None, want_loop_iter=None):
+    """An `if` whose body always raises and whose firing condition (path condition AND own test, local temporaries
+    inlined) is implied by ``spec`` (an NNF term).  Returns the If node or None."""
+    for s in walk_local(fn):
+        if not isinstance(s, ast.If):
+            continue
+        for body, pol in ((s.body, True), (s.orelse, False)):
+            if not body or not always_raises(body):
+                continue
+            if not pol and len(s.orelse) == 1 and isinstance(s.orelse[0], ast.If):
+                continue
+            for inl in (False, True):
+                own = nnf(inline_temporaries(s.test, s, fn) if inl else s.test, not pol)
+                pcs = [t for t in path_condition(s, fn, inline=inl)]
+                # earlier *raising* siblings may be assumed not to have fired (if they fired the function raised anyway);
+                # earlier *returning* siblings restrict the inputs that reach this guard and must be implied by the spec
+                firing = conj([own] + [p for p in pcs if not _from_raising_exit(p, s, fn, inl)])
+                if rename:
+                    firing = _rename_term(firing, rename)
+                if nnf_implies(spec, firing):
+                    return s
+    return None
+
+
+def _from_raising_exit(term, stmt, fn, inl=True):
+    for g in exit_guards_before(stmt):
+        if always_raises(g.body) and nnf(inline_temporaries(g.test, g, fn) if inl else g.test, True) == term:
+            return True
+    return False
+
+
+def _rename_term(term, rename):
+    if term[0] == "lit":
+        return ("lit", term[1], _rn(term[2], rename))
+    return (term[0], frozenset(_rename_term(k, rename) for k in term[1]))
+
+
+def terminal_events(fn, flow=None):
+    """[(kind 'return'|'raise', path-condition terms, leaf value expr | None, node)].
+    Returned values are resolved with ``flow`` (if given) and conditional expressions are split into cases."""
+    out = []
+    for s in walk_local(fn):
+        if isinstance(s, ast.Raise):
+            out.append(("raise", path_condition(s, fn), s.exc, s))
+        elif isinstance(s, ast.Return):
+            pc = path_condition(s, fn)
+            v = s.value
+            if v is not None and flow is not None:
+                v = flow.resolve(v, at=s)
+            if v is None:
+                out.append(("return", pc, None, s))
+                continue
+            for terms, leaf in ifexp_terms(v):
+                out.append(("return", pc + terms, leaf, s))
+    return out
+
+
+def ifexp_terms(v, limit=64):
+    """Split nested conditional expressions: [(NNF terms of the taken branches, leaf expr)]."""
+    out = []
+    todo = [([], v)]
+    while todo:
+        terms, n = todo.pop()
+        x = None
+        for y in ast.walk(n):
+            if isinstance(y, ast.IfExp):
+                x = y
+                break
+        if x is None or len(out) + len(todo) > limit:
+            out.append((terms, n))
+            continue
+        for pol, branch in ((True, x.body), (False, x.orelse)):
+            t = nnf(x.test, not pol)
+            if any(_contradicts(t, u) for u in terms):
+                continue
+            n2 = _replace(clone(n), x, branch)
+            todo.append((terms + [t], n2))
+    return out
+
+
+def _contradicts(a, b):
+    return a[0] == "lit" and b[0] == "lit" and a[2] == b[2] and a[1] != b[1]
+
+
+def term_strings(terms):
+    """canonical literal strings ('+lit' / '-lit') of a list of NNF terms (conjunction flattened)"""
+    out = set()
+    c = conj(terms)
+    lits = c[1] if c[0] == "and" else [c]
+    for l in lits:
+        if l[0] == "lit":
+            out.add(("+" if l[1] else "-") + l[2])
+        else:
+            out.add(str(l))
     return out
